@@ -59,6 +59,10 @@ func allLinks() []wire.Config {
 			}
 		}
 	}
+	// stateful endpoint that issues no session ids (GetSessionID returns ""): still a stateful HTTP endpoint
+	for _, j := range []bool{false, true} {
+		out = append(out, wire.Config{Kind: wire.Stateful, JSON: j, EmptySessionID: true})
+	}
 	return out
 }
 
@@ -99,6 +103,9 @@ func runInBubble(s Script) (res vt.Result) {
 	var sopts mcp.ServerOptions
 	if s.NoToolsCap {
 		sopts.Capabilities = &mcp.ServerCapabilities{Tools: &mcp.ToolCapabilities{}}
+	}
+	if s.Link.EmptySessionID {
+		sopts.GetSessionID = func() string { return "" }
 	}
 	server := mcp.NewServer(&mcp.Implementation{Name: "srv", Version: "1"}, &sopts)
 	server.AddReceivingMiddleware(func(next mcp.MethodHandler) mcp.MethodHandler {
